@@ -74,6 +74,18 @@ def cases(tier):
                 d = {nm[1]: '0.1', nm[2]: '1.0'}
                 d[key] = val
                 bad.append(('bad2-%s=%r' % (key, val), d))
+        # all three given with one of them zero (a zero is not "not given"); values that are not finite numbers; a step too small to count
+        for key in nm:
+            d = {nm[0]: '11', nm[1]: '0.1', nm[2]: '1.0'}
+            d[key] = '0'
+            bad.append(('all-three-with-%s=0' % key, d))
+        for val in ('nan', 'inf', '-inf', 'NaN'):
+            bad.append(('non-finite-%s=%s' % (nm[2], val), {nm[0]: '11', nm[2]: val}))
+            bad.append(('non-finite-%s=%s' % (nm[2], val), {nm[1]: '0.1', nm[2]: val}))
+            bad.append(('non-finite-%s=%s' % (nm[1], val), {nm[1]: val, nm[2]: '1.0'}))
+            bad.append(('non-finite-%s=%s' % (nm[1], val), {nm[1]: val, nm[0]: '11'}))
+        bad.append(('step-too-small', {nm[1]: '1e-320', nm[2]: '1.0'}))
+        bad.append(('step-too-small', {nm[1]: '1e-30', nm[2]: '1.0'}))
         for name, d in bad:
             out.append(dict(kind='reject', grid=grid, name=name, opts=d))
     # (v) defaults
